@@ -24,9 +24,9 @@ func init() {
 		Rule: "rapid-drawn map-fat specs (>=4 entries in every map-typed construct: paths, component maps, properties, responses, headers, parameters, security schemes, schemes inside one requirement, discriminator mapping, interacting server variables, oauth scopes) and a sample of C01 matrix rows, each generated k times in one process (k=6 quick, 12 thorough; Go re-randomises every map range) and 3 (6) times by the CLI in separate processes; " +
 			"oracle: identical file sets and sha256 per file across all runs; a spec goag rejects must be rejected on every run (error text not compared); " +
 			"non-trivial = spec with a multi-scheme requirement, >=2 discriminator mappings or interacting server variables, or a matrix row with >=4 map entries; distinct by spec hash",
-		Assume: []string{"k repetitions miss a 2-way unordered choice with probability 2^-(k-1) per choice point (probabilistic evidence)"},
-		Worker: c12Worker,
-		Replay: c12Replay,
+		Assume:    []string{"k repetitions miss a 2-way unordered choice with probability 2^-(k-1) per choice point (probabilistic evidence)"},
+		Worker:    c12Worker,
+		Replay:    c12Replay,
 		MinNonTrv: 20,
 	})
 }
@@ -185,6 +185,12 @@ func c12Worker(e *Env) *res.Result {
 		d := c.MapFat()
 		cfg := drawConfig(t)
 		spec := d.JSON()
+		if n := 0; rapid.Bool().Draw(t, "decorate_extensions") {
+			spec, n = decorateExtensions(t, spec)
+			if n > 0 {
+				r.Label("fat:with-x-goag-extensions")
+			}
+		}
 		fail, rejected := c12One(e, dir, spec, cfg, k, kcli, cli)
 		r.Evaluations++
 		if rejected {
@@ -210,6 +216,48 @@ func c12Worker(e *Env) *res.Result {
 		r.Extra["repetitions_cli"] = float64(kcli)
 	}
 	return r
+}
+
+// decorateExtensions adds several x-goag-* vendor extensions (string and
+// non-string values, known and unknown keys) to schemas of the document; goag
+// reads them through a Go map, and the generated bytes must not depend on the
+// order in which it meets them.
+func decorateExtensions(t *rapid.T, spec []byte) ([]byte, int) {
+	var root map[string]any
+	if jsonUnmarshal(spec, &root) != nil {
+		return spec, 0
+	}
+	var sites []site
+	collectSites(root, nil, &sites)
+	keys := []string{"x-goag-go-time-format", "x-goag-a", "x-goag-note", "x-goag-z", "x-goag-go-time-layout"}
+	vals := []any{"time.RFC1123", "time.RFC850", "time.Kitchen", float64(20060102150405), nil, true, []any{"time.RFC822"}, map[string]any{"layout": "x"}}
+	n := 0
+	for _, s := range sites {
+		m, ok := s.get().(map[string]any)
+		if !ok {
+			continue
+		}
+		if ty, _ := m["type"].(string); ty == "" {
+			continue
+		}
+		if _, isSchemaMap := m["in"]; isSchemaMap {
+			continue
+		}
+		isTime := m["format"] == "date-time"
+		if !isTime && rapid.IntRange(0, 5).Draw(t, "ext_here") != 0 {
+			continue
+		}
+		cnt := rapid.IntRange(2, 4).Draw(t, "ext_count")
+		perm := rapid.Permutation(keys).Draw(t, "ext_keys")
+		for _, k := range perm[:cnt] {
+			m[k] = rapid.SampledFrom(vals).Draw(t, "ext_val")
+		}
+		n++
+	}
+	if n == 0 {
+		return spec, 0
+	}
+	return mustIndent(root), n
 }
 
 func c12Replay(e *Env, path string) *res.Result {
